@@ -263,3 +263,9 @@ package annotation
 //@   prop C20 C13
 //@   requires tagDelta != nil
 //@   modifies *
+
+// ServeHTTP (C11, C20), structural contract: no variable of the request dispatcher is written by a
+// goroutine it starts and also used by the dispatcher afterwards (see neuronjson.Data.ServeHTTP).
+//@ func Data.ServeHTTP
+//@   prop C11 C20
+//@   structural
